@@ -108,7 +108,7 @@ func runDebug(cmd, repo string, args []string) {
 			}
 		}
 	case "gen-siblings":
-		t, err := genSiblingTable(prog)
+		t, err := genSiblingTable(prog, len(args) > 0 && args[0] == "ctx")
 		if err != nil {
 			fmt.Println("ERR", err)
 			os.Exit(2)
